@@ -59,6 +59,25 @@ Lemma C20_dynamic_refuted_overlap :
   all_done (fst (dsl_run_history tb_O5a FUEL init_world [HEdit 0 (Some 1%Z); HSession [SRequire 2; SRequire 1]])) = true.
 Proof. vm_compute. repeat split; reflexivity. Qed.
 
+(* ---- C20 (O5a, bottom-up form): GEN writes product 10 while source 0 holds 0, USE then requires GEN and reads it; while the
+   source holds 1 GEN writes nothing and USE writes the product itself, without requiring GEN.  After a round trip 0 -> 1 -> 0,
+   each change reported to a bottom-up build, no recorded dependency relates the two tasks any more; the build that is told about
+   the switch back runs them in the order of their stale ranks, GEN (the new writer) first: spurious "Overlapping write" *)
+Definition tb_O5a_bu : table :=
+  [(1, on0 1 (CWrite 10 EXACT (EConst 5) (CRet EAcc)) (CRet EAcc));
+   (2, on0 1 (CReq 1 0 (CRead 10 EXACT (CRet EAcc))) (CWrite 10 EXACT (EConst 6) (CRet EAcc)))].
+Lemma C20_dynamic_refuted_overlap_bottom_up :
+  List.last (fst (dsl_run_history tb_O5a_bu FUEL init_world
+      [HEdit 0 (Some 0%Z); HSession [SRequire 2]; HEdit 0 (Some 1%Z); HSession [SBottomUp [0]]; HEdit 0 (Some 0%Z); HSession [SBottomUp [0]]]))
+    [] = [RAbort AOverlap] /\
+  (* the build told about the first switch succeeds *)
+  all_done (fst (dsl_run_history tb_O5a_bu FUEL init_world
+      [HEdit 0 (Some 0%Z); HSession [SRequire 2]; HEdit 0 (Some 1%Z); HSession [SBottomUp [0]]])) = true /\
+  (* a from-scratch build of both tasks in the current state succeeds in either order *)
+  all_done (fst (dsl_run_history tb_O5a_bu FUEL init_world [HEdit 0 (Some 0%Z); HSession [SRequire 1; SRequire 2]])) = true /\
+  all_done (fst (dsl_run_history tb_O5a_bu FUEL init_world [HEdit 0 (Some 0%Z); HSession [SRequire 2; SRequire 1]])) = true.
+Proof. vm_compute. repeat split; reflexivity. Qed.
+
 (* ---- C20 (O5b): the require direction flips and the new requirer is built first: spurious "Cyclic task dependency" *)
 Definition tb_O5b : table := [(1, on0 1 (CReq 2 EQ CDone) CDone); (2, on0 2 (CReq 1 EQ CDone) CDone)].
 Lemma C20_dynamic_refuted_cycle :
